@@ -34,7 +34,7 @@ class Function:
         self.cls = d.get('cls', '')
         self.tq = d.get('tq', '')
         self.dep = d['dep']
-        self.file = d['file']
+        self.file = os.path.normpath(d['file'])
         self.line = d['line']
         self.endline = d.get('endline', d['line'])
         self.mangled = d.get('mangled', '')
@@ -421,6 +421,7 @@ class Facts:
         self.files = files
         self.functions = []      # all, including duplicates across TUs removed
         self.by_mangled = {}
+        self.by_record = defaultdict(lambda: defaultdict(list))   # record qname -> method name -> [Function]
         self.by_tq = defaultdict(list)       # 'Spectra::HermEigsBase::compute' -> [Function] (instantiated)
         self.patterns = defaultdict(list)    # same key -> dependent pattern functions
         self.records = {}                    # qname -> record dict (instantiated and patterns)
@@ -464,6 +465,8 @@ class Facts:
                     fn = Function(fd, tu)
                     self.by_mangled[m] = fn
                     self.by_tq[fn.tq].append(fn)
+                    if fn.record:
+                        self.by_record[fn.record][fn.name].append(fn)
                     self.functions.append(fn)
 
     def insts(self, tq, required=True):
@@ -478,6 +481,18 @@ class Facts:
         if required and not r:
             raise AnalysisBroken('anchor function template %s not found' % tq)
         return r
+
+    def method(self, record, name, required=True):
+        """The (first) analysed method `name` of an instantiated record."""
+        r = self.by_record.get(record, {}).get(name, [])
+        if not r:
+            if required:
+                raise AnalysisBroken('anchor method %s::%s has no analysed instantiation' % (record, name))
+            return None
+        return r[0]
+
+    def methods(self, record):
+        return [f for fs in self.by_record.get(record, {}).values() for f in fs]
 
     def concrete(self):
         return [f for f in self.functions if not f.dep]
